@@ -347,6 +347,21 @@ def conventional(rng, name, feat=None):
         s.rpc(f"Delete{R}", P + f".Delete{R}Request", ".google.protobuf.Empty",
               http={"delete": f"/{uver}/{{name={name_glob}}}"}, sigs=["name"])
         tags.add("void")
+        if rng.random() < 0.4:
+            # pagination over a map field: the pager's get()/attribute lookups answer from the most recent page
+            q = f.message(f"List{R}IndexRequest")
+            if child:
+                q.field("parent", "string", required=True, child_ref=rt)
+            q.field("page_size", "int32")
+            q.field("page_token", "string")
+            o = f.message(f"List{R}IndexResponse")
+            o.map("index", "string", P + "." + R)
+            o.field("next_page_token", "string")
+            o.field("total_size", "int32")
+            s.rpc(f"List{R}Index", P + f".List{R}IndexRequest", P + f".List{R}IndexResponse",
+                  http={"get": f"/{uver}/{{parent=projects/*}}/{coll}:index" if child else f"/{uver}/{coll}:index"},
+                  sigs=["parent"] if child else [])
+            tags.add("paged-over-map")
         if rng.random() < 0.5:
             # a singleton sub-resource (AIP-156): the pattern ends in literal text after the last variable
             sc = tf.message(f"{R}Config")
@@ -956,7 +971,7 @@ def rest_api(rng, name, numeric=False, nmethods=10):
     resp.field("items", P + ".Leaf", repeated=True)
     s = f.service("Rest", host=f"{name}.googleapis.com")
     shapes = ["get_name", "list_parent", "create_body_field", "update_nested", "act_star", "delete", "put_multi",
-              "two_vars", "addl_get", "addl_body_mix", "int_var", "star_nested"]
+              "two_vars", "addl_get", "addl_body_mix", "addl_body_differs_field_then_star", "addl_body_differs_star_then_field", "int_var", "star_nested"]
     rng.shuffle(shapes)
     for i, shape in enumerate(shapes[:nmethods]):
         q = f.message(f"Req{i}")
@@ -1027,6 +1042,13 @@ def rest_api(rng, name, numeric=False, nmethods=10):
             kw = dict(http={"post": f"/{ver}/{{name=things/*}}:mix"}, body="*",
                       extra=[({"post": f"/{ver}/{{name=organizations/*/things/*}}:mix"}, "*"),
                              ({"put": f"/{ver}/{{parent=folders/*}}/mix"}, "*")])
+        elif shape == "addl_body_differs_field_then_star":
+            # each binding is transcoded with its OWN body
+            kw = dict(http={"post": f"/{ver}/{{parent=projects/*}}/stuff"}, body="payload",
+                      extra=[({"post": f"/{ver}/{{parent=folders/*}}/stuff"}, "*")])
+        elif shape == "addl_body_differs_star_then_field":
+            kw = dict(http={"patch": f"/{ver}/{{name=things/*}}:rev"}, body="*",
+                      extra=[({"patch": f"/{ver}/{{name=organizations/*/things/*}}:rev"}, "payload")])
         elif shape == "int_var":
             kw = dict(http={"get": f"/{ver}/{{parent=projects/*}}/parts/{{part_num}}"})
         elif shape == "star_nested":
@@ -1060,7 +1082,7 @@ def flat_api(rng, name):
     leaf.field("color", color)
     leaf.field("opt", "string", optional=True)
     sub = f.message("Sub")
-    sub.field("id", "string")
+    sub.field("id", "string", required=True)     # REQUIRED below a message that is not: order of application matters (see sig_sets)
     sub.field("num", "sint64")
     sub.field("flag", "bool")
     sub.field("leaf", P + ".Leaf")
@@ -1110,16 +1132,23 @@ def flat_api(rng, name):
         [["sub.labels", "name"]],
         [["sub.leaves", "sub.deep.label"]],
         [["sub.by_num"], ["sub.color", "sub.when"]],
+        # REQUIRED fields mentioned after fields that are not: parameters and assignments follow the declared order
+        [["name", "count"], ["ratio", "count", "blob"]],
+        [["sub"], ["sub", "sub.id", "name"]],
     ]
-    dotted_containers = sig_sets[-3:]
+    dotted_containers = sig_sets[-5:-2]
+    required_late = sig_sets[-2:]
     rng.shuffle(sig_sets)
     chosen = sig_sets[:rng.randint(8, 12)]
     if not any(x in chosen for x in dotted_containers):
         chosen.append(rng.choice(dotted_containers))
+    for x in required_late:
+        if x not in chosen:
+            chosen.append(x)
     for i, sigs in enumerate(chosen):
         q = f.message(f"Req{i}")
         for n, t in pools["scalar"]:
-            q.field(n, t)
+            q.field(n, t, required=n in ("count", "blob"))
         for n, t in pools["optional"]:
             q.field(n, t, optional=True)
         for n, t in pools["reserved"]:
